@@ -1,0 +1,149 @@
+// Copyright 2026 Anapaya Systems
+//
+// Licensed under the Apache License, Version 2.0 (the "License");
+// you may not use this file except in compliance with the License.
+// You may obtain a copy of the License at
+//
+//   http://www.apache.org/licenses/LICENSE-2.0
+//
+// Unless required by applicable law or agreed to in writing, software
+// distributed under the License is distributed on an "AS IS" BASIS,
+// WITHOUT WARRANTIES OR CONDITIONS OF ANY KIND, either express or implied.
+// See the License for the specific language governing permissions and
+// limitations under the License.
+//! Verification hooks (cargo feature `verif-hooks`, off by default, add-only).
+//!
+//! Runs the gateway's handling of one decrypted inbound datagram -- the
+//! `HandleIncomingPacketResult::Forwarded` arm of `TunnelGateway::start_server` -- without
+//! sockets or WireGuard: the real `inbound_datagram_check`, the real
+//! `Dispatcher::try_dispatch`, the real (private) `TunnelGateway::create_scmp_error` writing
+//! into a buffer taken from a real `PacketPool`, truncated like the gateway truncates it.
+
+use std::time::Instant;
+
+use snap_tun::server::SnapTunAuthorization;
+
+use super::*;
+use crate::tunnel_gateway::NoopTunnelGatewayObserver;
+
+/// The gateway's send/receive buffer size.
+pub const PACKET_BUF_SIZE: usize = super::PACKET_BUF_SIZE;
+
+/// Authorization type used only to name a concrete `TunnelGateway<A, D, O>`.
+pub struct HookAuthz;
+impl SnapTunAuthorization for HookAuthz {
+    type SessionData = ();
+    fn is_authorized(&self, _now: Instant, _identity: &[u8; 32]) -> Option<Arc<()>> {
+        None
+    }
+}
+
+/// Which policy check of `inbound_datagram_check` rejected the datagram.
+#[derive(Debug, Clone, Copy, PartialEq, Eq)]
+pub enum CheckError {
+    /// `PacketPolicyError::MalformedPacket`
+    MalformedPacket,
+    /// `PacketPolicyError::InvalidSourceAddress`
+    InvalidSourceAddress,
+    /// `PacketPolicyError::InvalidPathType`
+    InvalidPathType,
+}
+
+/// What the gateway did with one inbound datagram.
+#[derive(Debug)]
+pub enum InboundOutcome {
+    /// The check accepted the datagram and `dispatcher.try_dispatch(view)` was called.
+    Dispatched,
+    /// The check failed and the gateway would send `bytes` (the SCMP reply, already truncated to
+    /// the encoded length) back through the tunnel. `display` is the error's `Display` text.
+    Reply {
+        /// failed check
+        error: CheckError,
+        /// `Display` of the error
+        display: String,
+        /// the encoded reply
+        bytes: Vec<u8>,
+    },
+    /// The check failed on a datagram that is itself an SCMP error message: the gateway does not
+    /// answer an SCMP error with an SCMP error (logs and drops).
+    Suppressed {
+        /// failed check
+        error: CheckError,
+    },
+    /// The check failed and the reply could not be encoded (the gateway logs and drops).
+    ReplyEncodeError {
+        /// failed check
+        error: CheckError,
+        /// encoder error
+        encode_error: EncodeError,
+    },
+}
+
+/// A packet pool of the type the gateway uses.
+pub fn new_pool(capacity: usize) -> ana_gotatun::packet::PacketBufPool<PACKET_BUF_SIZE> {
+    PacketPool::new(capacity)
+}
+
+/// Only the policy check: `Ok(view bytes)` or the failed check.
+pub fn check(datagram: &[u8], from_ip: IpAddr) -> Result<&[u8], CheckError> {
+    match inbound_datagram_check(datagram, from_ip) {
+        Ok(view) => Ok(view.as_slice()),
+        Err(e) => Err(classify(&e)),
+    }
+}
+
+fn classify(e: &PacketPolicyError) -> CheckError {
+    match e {
+        PacketPolicyError::MalformedPacket(..) => CheckError::MalformedPacket,
+        PacketPolicyError::InvalidSourceAddress(_) => CheckError::InvalidSourceAddress,
+        PacketPolicyError::InvalidPathType(..) => CheckError::InvalidPathType,
+    }
+}
+
+/// The `Forwarded` arm of the receive loop for one datagram `datagram` received from a tunnel
+/// peer with address `from_ip`; `local_addr` is the gateway socket's local address.
+pub fn inbound<D: Dispatcher + 'static>(
+    dispatcher: &D,
+    pool: &ana_gotatun::packet::PacketBufPool<PACKET_BUF_SIZE>,
+    datagram: &[u8],
+    from_ip: IpAddr,
+    local_addr: ScionHostAddr,
+) -> InboundOutcome {
+    match inbound_datagram_check(datagram, from_ip) {
+        Ok(view) => {
+            dispatcher.try_dispatch(view);
+            InboundOutcome::Dispatched
+        }
+        Err(e) if e.offending_is_scmp_error() => {
+            InboundOutcome::Suppressed {
+                error: classify(&e),
+            }
+        }
+        Err(e) => {
+            let error = classify(&e);
+            let display = e.to_string();
+            let mut target_buf = pool.get();
+            match TunnelGateway::<HookAuthz, D, NoopTunnelGatewayObserver>::create_scmp_error(
+                e,
+                local_addr,
+                ScionAddr::new(IsdAsn::WILDCARD, from_ip.into()),
+                &mut target_buf,
+            ) {
+                Ok(n) => {
+                    target_buf.truncate(n);
+                    InboundOutcome::Reply {
+                        error,
+                        display,
+                        bytes: target_buf[..].to_vec(),
+                    }
+                }
+                Err(encode_error) => {
+                    InboundOutcome::ReplyEncodeError {
+                        error,
+                        encode_error,
+                    }
+                }
+            }
+        }
+    }
+}
